@@ -778,6 +778,9 @@ theorem step_refines (env : Env) (i : Instr) (pre st : List Val) (hr : Spec.step
   case PACK =>
     exact step_unop env pre st .PACK (Spec.unV env .PACK) (Impl.execUn env .PACK) (fun _ _ => rfl) rfl (fun _ => rfl)
       (execUn_eq env .PACK) hr
+  case UNPACK t =>
+    exact step_unop env pre st (.UNPACK t) (Spec.unV env (.UNPACK t)) (Impl.execUn env (.UNPACK t)) (fun _ _ => rfl) rfl
+      (fun _ => rfl) (execUn_eq env (.UNPACK t)) hr
   case TRANSFER_TOKENS =>
     exact step_ternop env pre st .TRANSFER_TOKENS (Spec.transferTokensV env) (Impl.execTransferTokens env) (fun _ _ _ _ => rfl) rfl
       (fun a => rfl) (fun a b => rfl) (fun _ => rfl) (execTransferTokens_eq env) hr
